@@ -102,7 +102,9 @@ def run(P: Program, rep: Report):
     for k, msg in sorted(bad.items()):
         rep.fail("C11.R1", f"resolution:{k}", cls.loc, msg)
     if not bad:
-        rep.ok("C11.R1", f"resolution-table:{len(CASES)}-value-kinds-x-{len(layouts)}-layouts", cls.loc)
+        for layout in layouts:
+            for (lab, val, want) in CASES:
+                rep.ok("C11.R1", f"resolution:{layout}:{lab}", cls.loc, f"{val!r} -> {(want if layout != 'none' else val)!r}")
 
     rep.rule("C11.R5", "ordering: the default parse stack applies ResolveStringReferences before RemoveEnclosing")
     ps = P.func("middlewares.parsestack", "default_parse_stack")
